@@ -8,6 +8,7 @@ import (
 	"fmt"
 	"math"
 	"math/rand"
+	"strings"
 	"time"
 
 	"github.com/ericlagergren/decimal"
@@ -55,6 +56,24 @@ type Outer struct {
 	Name string
 	Age  int
 }
+
+// Types that embed a pointer to themselves / to each other (the type graph is cyclic, the values are not).
+type SelfNode struct {
+	*SelfNode
+	Name string
+}
+type MutLeft struct {
+	*MutRight
+	L string
+}
+type MutRight struct {
+	*MutLeft
+	R string
+}
+
+// Defined slice types whose underlying type converts to string.
+type RawBytes []byte
+type MyRunes []rune
 
 // Odd Go kinds a caller might put in a data map.
 type MyStr string
@@ -358,6 +377,20 @@ func Build(v V, env *Env) interface{} {
 		return (*int)(nil)
 	case "nilpstruct":
 		return (*St)(nil)
+	case "selfembed":
+		return SelfNode{Name: v.S}
+	case "selfembed1":
+		return SelfNode{SelfNode: &SelfNode{Name: "inner"}, Name: v.S}
+	case "pselfembed":
+		return &SelfNode{Name: v.S}
+	case "mutual":
+		return MutLeft{L: v.S}
+	case "mutual1":
+		return &MutLeft{MutRight: &MutRight{R: "r"}, L: v.S}
+	case "rawbytes":
+		return RawBytes(v.S)
+	case "myrunes":
+		return MyRunes([]rune(strings.ToValidUTF8(v.S, "?")))
 	case "pint":
 		x := int(v.I)
 		return &x
@@ -580,7 +613,7 @@ func RandValue(r *rand.Rand, depth int) V {
 	}
 }
 
-var oddKinds = []string{"mystr", "myint", "myf64", "mymap", "mylist", "arr3", "strarr2", "ppint", "pmap", "mapik", "mapifk", "chan", "stringer", "pstringer", "holder", "nilholder", "listnil", "bytes", "errval", "cplx", "uintptr", "nilfunc", "nilslice", "nilstrs", "nilmap", "emptylist"}
+var oddKinds = []string{"mystr", "myint", "myf64", "mymap", "mylist", "arr3", "strarr2", "ppint", "pmap", "mapik", "mapifk", "chan", "stringer", "pstringer", "holder", "nilholder", "listnil", "bytes", "errval", "cplx", "uintptr", "nilfunc", "nilslice", "nilstrs", "nilmap", "emptylist", "selfembed", "selfembed1", "pselfembed", "mutual", "mutual1", "rawbytes", "myrunes"}
 
 // OddKind draws a value of a Go kind or shape that ordinary tests do not think of.
 func OddKind(r *rand.Rand) V {
